@@ -1,8 +1,11 @@
 (* C15 -- wait() and wait_procs(): right exit status, never early, timeouts honoured.
    Statements only; proofs live in C15/Proofs*.v.  Model: C15/Model.v (transcription of
    psutil/_psposix.py wait_pid, psutil/__init__.py Process.wait and wait_procs),
-   specification: C15/Spec.v (virtual kernel, demanded answers). *)
-From PV Require Import C15.Spec C15.Proofs.
+   specification: C15/Spec.v (virtual kernel k_waitpid / k_exists of a process p with exit
+   instant p_exit, status p_status, EINTR positions p_eintr; virtual time in Q).
+   process_wait W E pid o tmo fuel t0 = (result, object afterwards, return instant, sleep() arguments). *)
+From PV Require Import C15.Spec C15.Proofs C15.ProofsProcs.
+From Coq Require Import Permutation.
 Open Scope Z_scope.
 Open Scope Q_scope.
 
@@ -11,3 +14,128 @@ Theorem C15_status_decode : forall e, wf_status e = true ->
   decode_status (k_status e) = RInt (spec_code e).
 Proof. exact status_decode. Qed.
 Print Assumptions C15_status_decode.
+
+(* 2. never early: an integer result is the child's status and the child had ended by the
+   instant the call returned -- for every exit instant, timeout, start, EINTR placement, fuel *)
+Theorem C15_never_early_status : forall p c0 tmo fuel t0 z o' t' sl,
+  wf_proc p = true ->
+  process_wait (k_waitpid p) (k_exists p) (p_pid p) (fresh c0) tmo fuel t0 = (RInt z, o', t', sl) ->
+  p_kind p = Child /\ (exists T, p_exit p = Some T /\ T <= t') /\ z = spec_code (p_status p).
+Proof. exact never_early_status. Qed.
+Print Assumptions C15_never_early_status.
+
+(* ... None only for a non-child that is gone by the return instant (or never existed); a PID that
+   never existed is answered at the start instant without sleeping (EINTR-free schedules) *)
+Theorem C15_never_early_none : forall p c0 tmo fuel t0 o' t' sl,
+  wf_proc p = true ->
+  process_wait (k_waitpid p) (k_exists p) (p_pid p) (fresh c0) tmo fuel t0 = (RNone, o', t', sl) ->
+  p_kind p <> Child /\
+  (p_kind p = NeverExisted \/ exists T, p_exit p = Some T /\ T <= t') /\
+  (p_kind p = NeverExisted -> p_eintr p = [] -> t' == t0 /\ sl = []).
+Proof. exact never_early_none. Qed.
+Print Assumptions C15_never_early_none.
+
+Theorem C15_never_existed_at_once : forall p c0 tmo f t0,
+  wf_proc p = true -> bad_timeout tmo = false -> p_kind p = NeverExisted -> p_eintr p = [] ->
+  process_wait (k_waitpid p) (k_exists p) (p_pid p) (fresh c0) tmo (S (S f)) t0
+  = (RNone, {| exitcode := Some RNone; kcalls := S c0 |}, t0, []).
+Proof. exact never_existed_at_once. Qed.
+Print Assumptions C15_never_existed_at_once.
+
+(* 3. TimeoutExpired(seconds = timeout, pid): only at or after the deadline, less than 40 ms after
+   it, nothing is cached, and -- when no waitpid call is interrupted -- the process is alive at
+   that instant *)
+Theorem C15_timeout_sound : forall p c0 tmo fuel t0 sec pid' o' t' sl,
+  wf_proc p = true ->
+  process_wait (k_waitpid p) (k_exists p) (p_pid p) (fresh c0) tmo fuel t0 = (RTimeout sec pid', o', t', sl) ->
+  tmo = Some sec /\ pid' = p_pid p /\ 0 <= sec /\
+  t0 + sec <= t' /\ t' < t0 + sec + (1 # 25) /\
+  (p_eintr p = [] -> p_kind p <> NeverExisted /\ ended_by p t' = false) /\
+  exitcode o' = None.
+Proof. exact timeout_sound. Qed.
+Print Assumptions C15_timeout_sound.
+
+(* known finding: with an EINTR on the poll made at the deadline the exception is raised
+   although the child has already ended *)
+Theorem C15_timeout_eintr_refuted :
+  exists p t0 o' t' sl, wf_proc p = true /\
+    process_wait (k_waitpid p) (k_exists p) (p_pid p) (fresh 0) (Some 0) 100 t0 = (RTimeout 0 (p_pid p), o', t', sl)
+    /\ p_kind p = Child /\ ended_by p t' = true.
+Proof. exact timeout_eintr_refuted. Qed.
+Print Assumptions C15_timeout_eintr_refuted.
+
+(* 4. the k-th sleep() argument is ival k = min(2^k / 10000, 1/25); timeout = 0 never sleeps;
+   the clock never runs backwards *)
+Theorem C15_intervals : forall p c0 tmo fuel t0 r o' t' sl,
+  wf_proc p = true ->
+  process_wait (k_waitpid p) (k_exists p) (p_pid p) (fresh c0) tmo fuel t0 = (r, o', t', sl) ->
+  (forall k q, nth_error sl k = Some q -> q == qmin (inject_Z (2 ^ Z.of_nat k) * (1 # 10000)) (1 # 25)) /\
+  (forall t, tmo = Some t -> t == 0 -> sl = []) /\
+  t0 <= t'.
+Proof. exact intervals. Qed.
+Print Assumptions C15_intervals.
+
+Theorem C15_interval_bounds : forall k,
+  ival 0 == 1 # 10000 /\ 0 < ival k /\ ival k <= 1 # 25.
+Proof. intro k. split; [exact ival_0 | split; [apply ival_pos | apply ival_le_cap]]. Qed.
+Print Assumptions C15_interval_bounds.
+
+(* a negative timeout raises ValueError before anything else, whatever the kernel and the cache *)
+Theorem C15_negative_timeout : forall W Ex pid o t fuel t0,
+  t < 0 -> process_wait W Ex pid o (Some t) fuel t0 = (RValueError, o, t0, []).
+Proof. exact negative_timeout. Qed.
+Print Assumptions C15_negative_timeout.
+
+Theorem C15_bad_pid : forall W Ex pid tmo fuel t0 c0,
+  (pid <= 0)%Z -> fst (wait_pid W Ex pid tmo fuel t0 c0) = RValueError.
+Proof. exact bad_pid. Qed.
+Print Assumptions C15_bad_pid.
+
+(* no other failure: ValueError only for a negative timeout; a call can hang only when it has
+   no timeout and waits for a child that never ends *)
+Theorem C15_no_other_outcome : forall p c0 tmo fuel t0 r o' t' sl,
+  wf_proc p = true ->
+  process_wait (k_waitpid p) (k_exists p) (p_pid p) (fresh c0) tmo fuel t0 = (r, o', t', sl) ->
+  match r with
+  | RValueError => bad_timeout tmo = true
+  | RTypeError => False
+  | RHang => tmo = None /\ p_exit p = None /\ p_kind p = Child
+  | _ => True
+  end.
+Proof. exact no_other_outcome. Qed.
+Print Assumptions C15_no_other_outcome.
+
+(* 6. the cache: after wait() returned a value every later call (valid timeout) returns the same
+   value at once, whatever the kernel would answer -- no kernel call, no sleep, no time *)
+Theorem C15_wait_cached : forall W Ex pid o tmo fuel t0 r o' t' sl,
+  process_wait W Ex pid o tmo fuel t0 = (r, o', t', sl) -> is_value r = true ->
+  forall W2 Ex2 tmo2 fuel2 t2, bad_timeout tmo2 = false ->
+    process_wait W2 Ex2 pid o' tmo2 fuel2 t2 = (r, o', t2, []).
+Proof. exact wait_cached. Qed.
+Print Assumptions C15_wait_cached.
+
+(* 7. wait_procs, for EVERY kernel, EVERY iteration order of the set `alive` (any permutation in
+   every round) and every exit schedule: gone/alive are duplicate-free, disjoint and cover the
+   input; returncode is assigned exactly to the gone processes, once each; the callback is called
+   exactly once per gone process (never without a callable) *)
+Theorem C15_wait_procs_partition : forall kos cb fuel order,
+  (forall r l, Permutation (order r l) l) ->
+  forall tmo rounds start gone alive g,
+  wait_procs kos cb fuel order tmo rounds start = (None, gone, alive, g) ->
+  NoDup gone /\ NoDup alive /\ (forall i, In i gone -> ~ In i alive) /\
+  (forall i, (i < length kos)%nat <-> In i gone \/ In i alive) /\
+  map fst (g_rc g) = rev gone /\
+  g_cb g = match cb with CbOk => rev gone | _ => [] end.
+Proof. exact wait_procs_partition. Qed.
+Print Assumptions C15_wait_procs_partition.
+
+(* 8. wait_procs(timeout >= 0) is back before start + timeout + 40 ms, whatever it returns or
+   raises, for every iteration order, exit schedule, EINTR placement and fuel *)
+Theorem C15_wait_procs_deadline : forall ps cb fuel order,
+  (forall r l, Permutation (order r l) l) -> forallb wf_proc ps = true ->
+  forall tm rounds start e gone alive g,
+  0 <= tm ->
+  wait_procs (map to_ko ps) cb fuel order (Some tm) rounds start = (e, gone, alive, g) ->
+  g_now g < start + tm + (1 # 25).
+Proof. exact wait_procs_deadline. Qed.
+Print Assumptions C15_wait_procs_deadline.
